@@ -2,3 +2,4 @@ From Robo Require Export Prelude Str Case Utils.
 Record case := { c_n : pyint; c_ws : arr string; c_out : res (list string) }.
 Definition run (c : case) : res (list string) := get_trough_wells (c_n c) (c_ws c).
 Definition check (c : case) : bool := res_match strs_eqb (run c) (c_out c).
+Definition mask (c : case) : Z := if check c then 0%Z else 1%Z.
